@@ -1,5 +1,6 @@
 pub mod c01;
 pub mod c02;
+pub mod c03;
 pub mod c04;
 
 use crate::report::{Report, Tier};
@@ -73,6 +74,22 @@ pub fn plan(id: &str) -> Option<Plan> {
             assumptions: BASE_ASSUMPTIONS.to_vec(),
             floor: 50,
             engines: vec![Engine { name: "sim", salt: 1, quick: 6000, thorough: 400_000, serial: false, run: Box::new(|s, t| c04::scenario(s, t)) }],
+            extra: None,
+        },
+        "C03" => Plan {
+            id: "C03",
+            rule: "scenario = seeded breaker (count/time window, thresholds, wait 10-100ms, with/without fallback, slow-call detection) + 4-16 concurrent callers on clones whose completions land while others are admitted, force_open/force_closed/reset at seeded instants, arrivals at open+wait-1ms/=/+1ms; oracle over the merged listener/probe log; non-trivial iff the breaker opened while >=1 call was in flight and >=1 caller arrived while open; distinct = (poll trace, inner-call instants, transitions) signature",
+            assumptions: BASE_ASSUMPTIONS.to_vec(),
+            floor: 50,
+            engines: vec![Engine { name: "sim", salt: 1, quick: 6000, thorough: 400_000, serial: false, run: Box::new(|s, t| c03::scenario("C03", s, t)) }],
+            extra: None,
+        },
+        "C09" => Plan {
+            id: "C09",
+            rule: "scenario = as C03 with arrivals concentrated around the instant the open wait elapses (2-16 callers, trial latencies 0-30ms, mixed outcomes so the breaker closes or re-opens while trials run); oracle counts inner calls between an observed transition to half-open and the next transition; non-trivial iff more callers than permitted arrived during one half-open episode; distinct = (poll trace, inner-call instants, transitions) signature",
+            assumptions: BASE_ASSUMPTIONS.to_vec(),
+            floor: 50,
+            engines: vec![Engine { name: "sim", salt: 1, quick: 6000, thorough: 400_000, serial: false, run: Box::new(|s, t| c03::scenario("C09", s, t)) }],
             extra: None,
         },
         _ => return None,
